@@ -329,7 +329,39 @@ func (env *Env) localByName(name string) (TV, bool) {
 		}
 	}
 	if len(cands) == 0 {
-		return TV{}, false
+		// a variable whose address escapes lives in the heap: its register holds a pointer to it
+		var hc []*ssa.Alloc
+		for v := range env.cur.regs {
+			if a, ok := v.(*ssa.Alloc); ok && a.Heap && a.Comment == name {
+				hc = append(hc, a)
+			}
+		}
+		if len(hc) == 0 {
+			return TV{}, false
+		}
+		sort.Slice(hc, func(i, j int) bool { return hc[i].Pos() < hc[j].Pos() })
+		pick := hc[len(hc)-1]
+		if env.loopHeader != nil {
+			for _, c := range hc {
+				if c.Block().Dominates(env.loopHeader) && c.Block() != env.loopHeader {
+					pick = c
+				}
+			}
+		}
+		pt := pick.Type().(*types.Pointer)
+		if _, isArr := under(pt.Elem()).(*types.Array); isArr {
+			return TV{}, false
+		}
+		ref, isSc := env.cur.regs[pick].(Sc)
+		if !isSc {
+			return TV{}, false
+		}
+		switch under(pt.Elem()).(type) {
+		case *types.Struct:
+			return TV{ref, pt}, true // field selection goes through the pointer
+		}
+		l := Loc{Kind: "O", Base: typeKeyString(pt.Elem()), Dims: []Term{ref.T}, Type: pt.Elem()}
+		return TV{env.loadSpec(env.cur, l), pt.Elem()}, true
 	}
 	pick := cands[0]
 	if len(cands) > 1 {
